@@ -1,6 +1,7 @@
 package main
 
 import (
+	"bytes"
 	"encoding/binary"
 	"encoding/json"
 	"flag"
@@ -484,6 +485,78 @@ func runLookupSync(lc *lsCase, dir string) {
 	}
 
 	switch lc.Kind {
+	case "reconfig":
+		// the list of nsqlookupds is changed at run time (PUT /config/nsqlookupd_tcp_addresses): removed, added back, swapped,
+		// emptied, restored -- after every change, every CONFIGURED nsqlookupd converges to this nsqd's topics and channels,
+		// and one that is no longer configured stops listing it
+		if len(lds) < 2 {
+			lc.Incon = "needs two lookupds"
+			return
+		}
+		convergeOn := func(on map[int]bool, limit time.Duration) (bool, string) {
+			start := time.Now()
+			last := ""
+			for time.Since(start) < limit {
+				want, err := nsqdTopology(nd)
+				if err != nil {
+					return false, "nsqd /stats: " + err.Error()
+				}
+				ok := true
+				for i, li := range lds {
+					got, err := li.regsOf(tcpPort)
+					if err != nil {
+						return false, err.Error()
+					}
+					exp := want
+					if !on[i] {
+						exp = nil
+					}
+					if strings.Join(got, ",") != strings.Join(exp, ",") {
+						ok = false
+						last = fmt.Sprintf("lookupd %d (configured: %v) lists %v for this nsqd, which has %v", i, on[i], got, want)
+					}
+				}
+				if ok {
+					lc.Final = want
+					return true, ""
+				}
+				time.Sleep(50 * time.Millisecond)
+			}
+			return false, last
+		}
+		rr := rand.New(rand.NewSource(lc.Seed))
+		plans := [][][]int{
+			{{1}, {1, 0}, {0}, {}, {0, 1}},
+			{{0}, {0, 1}, {}, {1}, {1, 0}, {0}},
+			{{}, {0, 1}, {1}, {0, 1}, {0}, {1, 0}},
+		}
+		plan := plans[int(lc.Seed)%len(plans)]
+		for step, set := range plan {
+			addrs := []string{}
+			on := map[int]bool{}
+			for _, i := range set {
+				addrs = append(addrs, proxies[i].addr())
+				on[i] = true
+			}
+			body, _ := json.Marshal(addrs)
+			rq, _ := http.NewRequest("PUT", "http://"+nd.HTTP+"/config/nsqlookupd_tcp_addresses", bytes.NewReader(body))
+			resp, err := http.DefaultClient.Do(rq)
+			if err != nil || resp.StatusCode != 200 {
+				lc.failf("[reconfig] PUT /config/nsqlookupd_tcp_addresses %s failed: %v", body, err)
+				return
+			}
+			resp.Body.Close()
+			lc.Ops++
+			if rr.Intn(2) == 0 {
+				admin(fmt.Sprintf("/topic/create?topic=rc%d", step))
+				admin(fmt.Sprintf("/channel/create?topic=rc%d&channel=c", step))
+			}
+			if ok, why := convergeOn(on, 60*heartbeat); !ok {
+				lc.failf("[reconfig] after the nsqlookupd list was set to %v at run time (step %d of %v): %s, still so after 60 heartbeat intervals", set, step, plan, why)
+				return
+			}
+		}
+		return
 	case "reorder":
 		// delete + re-create of the same name with the deletion's notify goroutine overtaken by the creation's
 		name := []string{"topic", "channel"}[lc.Seed%2]
